@@ -304,6 +304,66 @@ func (im *Impl) constBytes(e ast.Expr) (string, bool) {
 			}
 		}
 	}
+	// a package-level variable that is initialised with such a constant and assigned nowhere in the package
+	// (var openTag = []byte("<?php ")) stands for the constant
+	if id, ok := e.(*ast.Ident); ok {
+		if v, ok := im.info().Uses[id].(*types.Var); ok && v.Pkg() == im.Pkg.Types && v.Parent() == im.Pkg.Types.Scope() {
+			var init ast.Expr
+			assigned := false
+			for _, f := range im.Pkg.Syntax {
+				ast.Inspect(f, func(n ast.Node) bool {
+					switch x := n.(type) {
+					case *ast.ValueSpec:
+						for i, nm := range x.Names {
+							if im.Pkg.TypesInfo.Defs[nm] == v && i < len(x.Values) {
+								init = x.Values[i]
+							}
+						}
+					case *ast.AssignStmt:
+						for _, l := range x.Lhs {
+							if li, ok := unparen(l).(*ast.Ident); ok && im.Pkg.TypesInfo.Uses[li] == v {
+								assigned = true
+							}
+							if ix, ok := unparen(l).(*ast.IndexExpr); ok {
+								if li, ok := unparen(ix.X).(*ast.Ident); ok && im.Pkg.TypesInfo.Uses[li] == v {
+									assigned = true
+								}
+							}
+						}
+					case *ast.UnaryExpr:
+						if li, ok := unparen(x.X).(*ast.Ident); ok && x.Op == token.AND && im.Pkg.TypesInfo.Uses[li] == v {
+							assigned = true
+						}
+					}
+					return true
+				})
+			}
+			if init != nil && !assigned {
+				// the initialiser is judged with the package's own type information
+				saved := im.nz
+				_ = saved
+				return im.constBytesIn(init)
+			}
+		}
+	}
+	return "", false
+}
+
+// constBytesIn: constBytes for an expression of the package's original syntax (not the normalised body).
+func (im *Impl) constBytesIn(e ast.Expr) (string, bool) {
+	e = unparen(e)
+	info := im.Pkg.TypesInfo
+	if call, ok := e.(*ast.CallExpr); ok && len(call.Args) == 1 {
+		if tv, ok := info.Types[call.Fun]; ok && tv.IsType() {
+			if sl, ok := tv.Type.Underlying().(*types.Slice); ok {
+				if b, ok := sl.Elem().(*types.Basic); ok && b.Kind() == types.Byte {
+					if av, ok := info.Types[call.Args[0]]; ok && av.Value != nil && av.Value.Kind() == constant.String {
+						return constant.StringVal(av.Value), true
+					}
+				}
+			}
+		}
+	}
 	return "", false
 }
 
